@@ -45,6 +45,7 @@ fn parse_flips(t: &str) -> Vec<bool> {
 
 /// Executes one case from its textual inputs and writes the observation.
 pub fn run(key: &str, a: &[String], out: &mut Out) {
+    out.begin(key, a);
     match key {
         "C06.coin" => {
             let flips = parse_flips(&a[0]);
